@@ -31,7 +31,7 @@ func init() {
 			c.ruleAllocator()
 			c.min("R-ALLOCCONST", 4)
 			c.min("R-POISON", 4)
-			c.min("R-BUMP", 6)
+			c.min("R-BUMP", 7)
 		})
 	register("C29", "resolved-callee tables for the hash and signature helpers (R-CALLEE), exact normalisation of the secp256k1 recovery byte (R-RECID)",
 		"Decides which primitive each helper resolves to through the type checker: Blake2b128 -> blake2b.New(16), Blake2bHash -> blake2b.New256, Keccak256 -> sha3.NewLegacyKeccak256 (not the NIST SHA3), Twox64/128/256 -> xxhash.NewS64 with seeds 0..n-1 written little-endian in seed order, Sha256 -> sha256.Sum256; sr25519 Verify decodes the signature with the strict schnorrkel decoder (marker bit required) and only VerifyDeprecated may use the lenient one; ed25519 verification resolves to crypto/ed25519.Verify, which is cofactorless and rejects non-canonical encodings that ZIP-215 accepts (recorded finding); secp256k1 recovery rewrites only the recovery byte, by v >= 27 -> v - 27 exactly as the reference, before calling the library. "+
@@ -237,6 +237,30 @@ func (c *Ctx) ruleAllocator() {
 		}
 	})
 	c.ob("R-BUMP", "bump:bumper-advances-by-size-after-checks", f.Pos(), adv, "*bumper += size happens after (never before) the memory-size check/growth")
+	// the 32-bit bump pointer cannot wrap: the 64-bit required size is bounded by 2^32-1 before the store
+	nowrap := false
+	eachInstr(f, func(b *ssa.BasicBlock, _ int, in ssa.Instruction) {
+		st, ok := in.(*ssa.Store)
+		if !ok || st.Addr != ssa.Value(bumper) {
+			return
+		}
+		if bo, isSum := st.Val.(*ssa.BinOp); !isSum || bo.Op != token.ADD {
+			return // a constant (saturated) value cannot wrap
+		}
+		nowrap = guardedBy(b, func(cond ssa.Value, truth bool) bool {
+			subj, op, k, ok := cmpWithConst(cond)
+			if !ok || required == nil || subj != ssa.Value(required) {
+				return false
+			}
+			switch {
+			case op == token.GTR && !truth && k <= 1<<32-1, op == token.GEQ && !truth && k <= 1<<32,
+				op == token.LEQ && truth && k <= 1<<32-1, op == token.LSS && truth && k <= 1<<32:
+				return true
+			}
+			return false
+		})
+	})
+	c.ob("R-BUMP", "bump:bumper-cannot-wrap", f.Pos(), nowrap, "*bumper += size is a 32-bit addition: unless bumper+size (the 64-bit required size) was bounded by 2^32-1, a block ending exactly at 4 GiB wraps the bump pointer to 0 and later allocations land below the heap base, inside live blocks")
 	_ = derivesReq
 }
 
